@@ -1,0 +1,308 @@
+//go:build verif
+
+package bttest
+
+import (
+	"math/rand"
+	"os"
+	"path/filepath"
+	"sort"
+	"sync"
+	"time"
+
+	"cloud.google.com/go/bigtable"
+	btapb "cloud.google.com/go/bigtable/admin/apiv2/adminpb"
+	btpb "cloud.google.com/go/bigtable/apiv2/bigtablepb"
+	"github.com/syndtr/goleveldb/leveldb"
+	"github.com/syndtr/goleveldb/leveldb/opt"
+	"github.com/syndtr/goleveldb/leveldb/storage"
+)
+
+// VerifSim holds the callbacks of the deterministic simulator (build tag "verif").
+// With Enabled == false the tag-on build behaves exactly like the tag-off build.
+var VerifSim struct {
+	// Enabled switches the server and table mutexes to cooperative mode. It must be set
+	// once, before any server is created, and never toggled afterwards.
+	Enabled bool
+	// Yield is called at scheduling points; Block at a scheduling point where the caller
+	// cannot proceed (it is called again after some other task has run).
+	Yield func(point string)
+	Block func(point string)
+	// Choose returns a value in [0,n) for decisions the operating system would take
+	// (e.g. the order in which RemoveAll unlinks files).
+	Choose func(point string, n int) int
+
+	WallNow    func() time.Time
+	RandInt31n func(n int32) int32
+
+	// WrapLeveldbStorage, when set, wraps the file storage of every on-disk leveldb.
+	WrapLeveldbStorage func(path string, s storage.Storage) storage.Storage
+
+	DisableGCLoop bool
+}
+
+func simYield(p string) {
+	if f := VerifSim.Yield; f != nil {
+		f(p)
+	}
+}
+
+func simBlock(p string) {
+	if f := VerifSim.Block; f != nil {
+		f(p)
+		return
+	}
+	panic("verif: " + p + " would block outside a simulated run (leaked lock)")
+}
+
+func wallNow() time.Time {
+	if f := VerifSim.WallNow; f != nil {
+		return f()
+	}
+	return time.Now()
+}
+
+func randInt31n(n int32) int32 {
+	if f := VerifSim.RandInt31n; f != nil {
+		return f(n)
+	}
+	return rand.Int31n(n)
+}
+
+func gcloopEnabled() bool { return !VerifSim.DisableGCLoop }
+
+type serverMutex struct {
+	real sync.Mutex
+	held bool
+}
+
+func (m *serverMutex) Lock() {
+	if !VerifSim.Enabled {
+		m.real.Lock()
+		return
+	}
+	simYield("smu.Lock")
+	for m.held {
+		simBlock("smu.Lock")
+	}
+	m.held = true
+}
+
+func (m *serverMutex) Unlock() {
+	if !VerifSim.Enabled {
+		m.real.Unlock()
+		return
+	}
+	if !m.held {
+		panic("verif: Unlock of unlocked server mutex")
+	}
+	m.held = false
+}
+
+type tableMutex struct {
+	real sync.RWMutex
+	w    bool
+	r    int
+}
+
+func (m *tableMutex) Lock() {
+	if !VerifSim.Enabled {
+		m.real.Lock()
+		return
+	}
+	simYield("tmu.Lock")
+	for m.w || m.r > 0 {
+		simBlock("tmu.Lock")
+	}
+	m.w = true
+}
+
+func (m *tableMutex) Unlock() {
+	if !VerifSim.Enabled {
+		m.real.Unlock()
+		return
+	}
+	if !m.w {
+		panic("verif: Unlock of unlocked table mutex")
+	}
+	m.w = false
+	simYield("tmu.Unlock")
+}
+
+func (m *tableMutex) RLock() {
+	if !VerifSim.Enabled {
+		m.real.RLock()
+		return
+	}
+	simYield("tmu.RLock")
+	for m.w {
+		simBlock("tmu.RLock")
+	}
+	m.r++
+}
+
+func (m *tableMutex) RUnlock() {
+	if !VerifSim.Enabled {
+		m.real.RUnlock()
+		return
+	}
+	if m.r <= 0 {
+		panic("verif: RUnlock of unlocked table mutex")
+	}
+	m.r--
+	simYield("tmu.RUnlock")
+}
+
+// VerifHeld reports whether the mutex is held (cooperative mode only).
+func (m *tableMutex) verifHeld() bool { return m.w || m.r > 0 }
+
+func openDiskLeveldb(path string, o *opt.Options) (*leveldb.DB, error) {
+	w := VerifSim.WrapLeveldbStorage
+	if w == nil {
+		return leveldb.OpenFile(path, o)
+	}
+	stor, err := storage.OpenFile(path, false)
+	if err != nil {
+		return nil, err
+	}
+	// The wrapper is responsible for closing stor when the database releases its lock.
+	db, err := leveldb.Open(w(path, stor), o)
+	if err != nil {
+		_ = stor.Close()
+		return nil, err
+	}
+	return db, nil
+}
+
+func fsMkdirAll(path string, perm os.FileMode) error {
+	simYield("fs.mkdirall")
+	return os.MkdirAll(path, perm)
+}
+
+// fsWriteFile is os.WriteFile; under simulation its system calls (open+truncate, write, write,
+// close) are separated by scheduling points so that a process kill can land between them.
+func fsWriteFile(name string, data []byte, perm os.FileMode) error {
+	if VerifSim.Yield == nil {
+		return os.WriteFile(name, data, perm)
+	}
+	simYield("fs.write.open")
+	f, err := os.OpenFile(name, os.O_WRONLY|os.O_CREATE|os.O_TRUNC, perm)
+	if err != nil {
+		return err
+	}
+	half := len(data) / 2
+	simYield("fs.write.first")
+	_, err = f.Write(data[:half])
+	if err == nil {
+		simYield("fs.write.second")
+		_, err = f.Write(data[half:])
+	}
+	simYield("fs.write.close")
+	if err1 := f.Close(); err1 != nil && err == nil {
+		err = err1
+	}
+	return err
+}
+
+func fsRename(oldpath, newpath string) error {
+	simYield("fs.rename")
+	err := os.Rename(oldpath, newpath)
+	simYield("fs.renamed")
+	return err
+}
+
+func fsRemove(name string) error {
+	simYield("fs.remove")
+	return os.Remove(name)
+}
+
+// fsRemoveAll is os.RemoveAll; under simulation it unlinks one entry at a time, in an order
+// chosen by the simulator (the order of RemoveAll is unspecified), with a scheduling point
+// before each unlink.
+func fsRemoveAll(path string) error {
+	if VerifSim.Yield == nil {
+		return os.RemoveAll(path)
+	}
+	simYield("fs.removeall")
+	var files, dirs []string
+	_ = filepath.Walk(path, func(p string, info os.FileInfo, err error) error {
+		if err != nil {
+			return nil
+		}
+		if info.IsDir() {
+			dirs = append(dirs, p)
+		} else {
+			files = append(files, p)
+		}
+		return nil
+	})
+	sort.Strings(files)
+	for len(files) > 0 {
+		i := 0
+		if c := VerifSim.Choose; c != nil {
+			i = c("fs.removeall.order", len(files))
+		}
+		simYield("fs.removeall.unlink")
+		_ = os.Remove(files[i])
+		files = append(files[:i], files[i+1:]...)
+	}
+	simYield("fs.removeall.dirs")
+	return os.RemoveAll(path)
+}
+
+// VerifService gives the simulator socket-less access to the service implementation.
+type VerifService struct{ s *server }
+
+// VerifService exposes the service behind a server created by NewServerWithOptions.
+func (s *Server) VerifService() *VerifService { return &VerifService{s.s} }
+
+// VerifNewMemService builds the service without a listener. It performs no start-up
+// recovery and is meant for the memory engines (whose GetTables is empty).
+func VerifNewMemService(opt Options) *VerifService {
+	if opt.Storage == nil {
+		opt.Storage = LeveldbMemStorage{}
+	}
+	if opt.Clock == nil {
+		opt.Clock = bigtable.Now
+	}
+	return &VerifService{&server{
+		storage: opt.Storage,
+		tables:  make(map[string]*table),
+		clock:   opt.Clock,
+		done:    make(chan struct{}),
+	}}
+}
+
+func (v *VerifService) Data() btpb.BigtableServer             { return v.s }
+func (v *VerifService) Admin() btapb.BigtableTableAdminServer { return v.s }
+
+// GC runs one garbage-collection pass over the named table with the server's clock,
+// as gcloop would (force=false) or unconditionally (force=true).
+func (v *VerifService) GC(table string, force bool) bool {
+	v.s.mu.Lock()
+	t := v.s.tables[table]
+	v.s.mu.Unlock()
+	if t == nil {
+		return false
+	}
+	t.gc(v.s.clock(), v.s.done, force)
+	return true
+}
+
+// LeakedLocks reports table names whose mutex is held, and whether the server mutex is held.
+func (v *VerifService) LeakedLocks() (tables []string, server bool) {
+	for name, t := range v.s.tables {
+		if t.mu.verifHeld() {
+			tables = append(tables, name)
+		}
+	}
+	sort.Strings(tables)
+	return tables, v.s.mu.held
+}
+
+// CloseMem closes the row stores of a service built by VerifNewMemService.
+func (v *VerifService) CloseMem() {
+	for _, t := range v.s.tables {
+		t.rows.Close()
+	}
+}
